@@ -641,6 +641,60 @@ def large_structured_programs(tier, use_solve=False):
             yield None
 
 
+def wide_operator_programs(tier, use_solve=False):
+    """one n-ary operator node with k operands (k around the powers of two and 100), all operands pinned by unit constraints so
+    that ONE operand at position p decides the value; a result variable is tied to the node: exactly one model.
+       count   x_p true, others false;  T == count_true(x)            -> T = 1
+       or      x_p true, others false;  B == fold_or(x)               -> B true
+       and     x_p false, others true;  B == fold_and(x)              -> B false
+       alldiff y_i = i except y_p = y_q (q next to p);  B == alldifferent(y)   -> B false   (and all distinct -> true)"""
+    load_repo()
+    from cspuz import Solver, count_true, fold_or, fold_and, alldifferent
+    ks = (2, 3, 31, 32, 33, 34, 63, 64, 65, 66, 97, 100, 129) if tier == "quick" else tuple(range(2, 70)) + (95, 96, 97, 98, 99, 100, 127, 128, 129, 130, 257)
+    for k in ks:
+        for p in sorted({0, k // 2, k - 1}):
+            for kind in ("count", "or", "and", "alldiff", "alldiff-true"):
+                if kind == "alldiff-true" and p != 0:
+                    continue
+                s = Solver()
+                if kind in ("count", "or", "and"):
+                    xs = [s.bool_var() for _ in range(k)]
+                    hot = (kind != "and")
+                    for i, x in enumerate(xs):
+                        s.ensure(x if ((i == p) == hot) else ~x)
+                    if kind == "count":
+                        r_ = s.int_var(0, k)
+                        s.ensure(r_ == count_true(xs))
+                        want = 1
+                    else:
+                        r_ = s.bool_var()
+                        s.ensure(r_ == (fold_or(xs) if kind == "or" else fold_and(xs)))
+                        want = (kind == "or")
+                else:
+                    ys = [s.int_var(0, k) for _ in range(k)]
+                    q = p + 1 if p + 1 < k else p - 1
+                    for i, y in enumerate(ys):
+                        s.ensure(y == (q if (i == p and kind == "alldiff") else i))
+                    r_ = s.bool_var()
+                    s.ensure(r_ == alldifferent(ys))
+                    want = (kind == "alldiff-true")
+                try:
+                    if use_solve:
+                        s.add_answer_key(r_)
+                        r = s.solve()
+                    else:
+                        r = s.find_answer()
+                except Exception as e:
+                    yield dict(kind="exception:%s" % type(e).__name__, detail="wide operator %s(k=%d, p=%d): %s: %s" % (kind, k, p, type(e).__name__, str(e)[:160]), program=[kind, k, p])
+                    continue
+                if r is not True:
+                    yield dict(kind="sat-mismatch", detail="wide operator %s(k=%d, p=%d): the solver says %r, the program has exactly one model" % (kind, k, p, r), program=[kind, k, p])
+                elif r_.sol != want or type(r_.sol) is not type(want):
+                    yield dict(kind="sol-not-the-model", detail="wide operator %s with %d operands, deciding operand at position %d: result reported as %r, its only value is %r" % (kind, k, p, r_.sol, want), program=[kind, k, p])
+                else:
+                    yield None
+
+
 def run_c01(rep, tier, seed, nproc=16):
     from concurrent.futures import ProcessPoolExecutor
     from pyvc.runner import write_replay
@@ -689,11 +743,28 @@ def run_c01(rep, tier, seed, nproc=16):
                 payload = dict(engine="programs", property="C01", **f)
                 rp = write_replay("C01", "find_answer_%s_large" % f["kind"], payload)
                 rep.violation(sig, f["detail"], rp)
+    for f in wide_operator_programs(tier):
+        rep.evaluations += 1
+        if f is not None:
+            sig = "e2e:find_answer:%s:wide-operator" % f["kind"]
+            if sig not in seen:
+                seen.add(sig)
+                payload = dict(engine="programs", property="C01", **f)
+                rp = write_replay("C01", "find_answer_%s_wide" % f["kind"], payload)
+                rep.violation(sig, f["detail"], rp)
     rep.distinct.update(("c01", i) for i in range(rep.evaluations))
 
 
 def replay_c01(payload):
     load_repo()
+    if "how" not in payload:
+        # large / wide-operator / shared-subterm families: deterministic, re-run the family and report what still fails
+        bad = [f for f in list(large_structured_programs("quick")) + list(wide_operator_programs("quick")) if f is not None]
+        for f in bad[:5]:
+            print("still fails:", f["detail"])
+        if not bad:
+            print("the deterministic program families agree now (payload: %s)" % json.dumps(payload.get("program"))[:200])
+        return 1 if bad else 0
     how = payload["how"]
     if how["kind"] == "matrix":
         s = build_matrix_program(dict(one_operator_matrix())[how["label"]])
